@@ -32,6 +32,7 @@ type job struct {
 	ID    string            `json:"id"`
 	Tags  []string          `json:"tags"`
 	Files map[string]string `json:"files"`
+	Links []string          `json:"links"` // names of Files that are created as symlinks to regular files in a sibling directory
 	Std   string            `json:"std"` // import path of a GOROOT package instead of Files
 }
 
@@ -166,8 +167,22 @@ func runJob(j job, scratch string) result {
 		os.MkdirAll(dir, 0o755)
 		defer os.RemoveAll(dir)
 		os.WriteFile(filepath.Join(dir, "go.mod"), []byte("module gvsel\n\ngo 1.20\n"), 0o644)
+		linked := map[string]bool{}
+		for _, n := range j.Links {
+			linked[n] = true
+		}
+		ldir := filepath.Join(scratch, "l"+j.ID)
+		if len(linked) > 0 {
+			os.MkdirAll(ldir, 0o755)
+			defer os.RemoveAll(ldir)
+		}
 		for n, c := range j.Files {
-			os.WriteFile(filepath.Join(dir, n), []byte(c), 0o644)
+			if linked[n] {
+				os.WriteFile(filepath.Join(ldir, n), []byte(c), 0o644)
+				os.Symlink(filepath.Join(ldir, n), filepath.Join(dir, n))
+			} else {
+				os.WriteFile(filepath.Join(dir, n), []byte(c), 0o644)
+			}
 		}
 		pd, err = xctx.Import(".", dir, 0)
 	}
